@@ -1383,7 +1383,14 @@ class Engine:
                     st.assume(z3.Implies(whole, cb.e == ch.e + r.e))
                     st.assume(z3.And(ch.e >= 0, (ch.e >= 1) == z3.Contains(head, args[0].e)))
             return r
-        if name in ('isspace', 'isdigit', 'isupper', 'isalpha'):
+        if name == 'isspace':
+            # exact: non-empty and made of whitespace only, i.e. stripping whitespace leaves nothing
+            # (str.strip() and str.isspace() use the same character class)
+            r = self.call_ufunc_auto('str_isspace', [s], BOOL)
+            stripped = self.strip_like(st, s, None, True, True)
+            st.assume(r.e == z3.And(z3.Length(s.e) > 0, z3.Length(stripped.e) == 0))
+            return r
+        if name in ('isdigit', 'isupper', 'isalpha'):
             return self.call_ufunc_auto('str_' + name, [s], BOOL)
         if name in ('casefold', 'lower', 'upper'):
             return self.call_ufunc_auto('str_' + name, [s], STR)
